@@ -20,6 +20,7 @@ import numpy as np
 import scipy.sparse as sps
 from scipy.sparse.csgraph import connected_components
 from .. import common
+from ..translator import py2lean
 from ..common import enc, ask, call
 
 LEVEL = "proof"
@@ -1035,7 +1036,18 @@ def short(x, n=300):
     return s if len(s) <= n else s[:n] + "…"
 
 
+# source translator (DESIGN.md 3.2): part of the model is regenerated from the source text on every run
+TRUSTED = list(TRUSTED) + [py2lean.trusted_note("graph")]
+PROP_FILES = ["PersimVerif/Props/C17.lean"] + py2lean.prop_files("graph")
+
+
+def pre_build(ctx):
+    """source translator: regenerate Generated/Src*.lean from PERSIM_ROOT's source"""
+    py2lean.pre_build(ctx, ("graph",))
+
+
 def run(ctx):
+    py2lean.report_broken(ctx, PROP_FILES)
     warnings.filterwarnings("ignore", category=sps.SparseEfficiencyWarning)
     ctx.extra["source_digest"] = common.source_digest(
         "persim/gromov_hausdorff.py", ["gromov_hausdorff", "make_distance_matrix_from_adjacency_matrix",
@@ -1173,3 +1185,4 @@ MANIFEST = {
             "repaired in the code (eliminate_zeros after tocsr) is reported to the maintainers of known_findings.txt.",
     "technique": "Lean 4 theorems over a hand-written model + differential correspondence with the real code",
 }
+MANIFEST["note"] += " " + py2lean.manifest_note("graph")
